@@ -16,10 +16,13 @@ rows = ['| control diff | what was rewritten | checks run (verdict) |', '|---|--
 nrun = nok = 0
 for name in sorted(res):
     what = ''
+    invalid = ''
     mp = V / 'control' / name / 'meta.json'
     if mp.exists():
         try:
-            what = json.loads(mp.read_text()).get('what', '')
+            mj = json.loads(mp.read_text())
+            what = mj.get('what', '')
+            invalid = mj.get('invalid_control', '')
         except Exception:
             pass
     what = what.replace('|', '/').replace('\n', ' ')
@@ -28,9 +31,12 @@ for name in sorted(res):
     cells = []
     for c in sorted(res[name]):
         v, rev = res[name][c]
-        nrun += 1
-        nok += v == 'OK'
+        if not invalid:
+            nrun += 1
+            nok += v == 'OK'
         cells.append('%s %s' % (c, v))
+    if invalid:
+        what = '**excluded — ' + invalid.replace('|', '/') + '**'
     rows.append('| %s | %s | %s |' % (name, what, '; '.join(cells)))
 tab = '\n'.join(rows) + '\n\n%d (diff, check) runs, %d OK.\n' % (nrun, nok)
 p = V / 'DESIGN.md'
